@@ -238,6 +238,7 @@ class World:
                  tz=zone, tzinfo=zone, timezone=zone, timezone_name=getattr(zone, "name", ""),
                  set=set_, replace=replace, on=on, at=at, **({} if (own and self.interpret_add) else dict(add=add, subtract=subtract)),
                  utcoffset=lambda: wd.offset(w, fold), naive=lambda: Stub(_eqkey=(w,), _wall=w),
+                 timestamp=lambda: (wd.instant(me) - _dt.datetime(1970, 1, 1)).total_seconds() if zone is wd.tz else (_ for _ in ()).throw(core.Unsupported("timestamp() in another zone")),
                  astimezone=lambda tz=None: (wd.instant(me).replace(tzinfo=_dt.timezone.utc) if tz is _dt.timezone.utc and zone is wd.tz
                                              else (_ for _ in ()).throw(core.Unsupported("astimezone() to another zone than UTC in the scenario world"))),
                  date=lambda: wd.date(w.date()), format=lambda f, *a, **k: _format(w.date(), f), weekday=w.weekday, isoweekday=w.isoweekday)
